@@ -93,6 +93,7 @@ PROBES = [
     ("uses_globals", "# H\n\n## H2\n\nterm\n: def\n\n[x](https://e.org) [y](http://e.org) x[^f] [](#h2)\n\n[^f]: fn\n\n~~s~~ $m$ <img src=\"i.png\">\n", {"enable_extensions": ["strikethrough", "dollarmath"], "heading_anchors": 2}),
     ("inv_one", "[](inv:k#alpha) [](inv:k#beta) [](inv:#al*)\n", {"inventories": {"k": ["https://one.org", "one.inv"]}}),
     ("inv_two", "[](inv:k#alpha) [](inv:k#beta) [](inv:#be*)\n", {"inventories": {"k": ["https://two.org", "two.inv"]}}),
+    ("inv_one_other_base", "[](inv:k#alpha) [x](inv:k#alpha)\n", {"inventories": {"k": ["https://three.org/base", "one.inv"]}}),
     ("footnotes_targets", "(t)=\n# T\n\nx[^a] y[^b] [](#t)\n\n[^b]: B\n[^a]: A\n", {}),
     ("html_img_raw", "<img src=\"a.png\" alt=\"A\">\n\n<div class=\"admonition\">x</div>\n", {}),
     ("html_img_on", "<img src=\"a.png\" alt=\"A\">\n\n<div class=\"admonition\">x</div>\n", {"enable_extensions": ["html_image", "html_admonition"]}),
